@@ -158,11 +158,11 @@ func loadRepo(goos, goarch string, overlay map[string][]byte, patterns ...string
 	}
 	fset := token.NewFileSet()
 	cfg := &packages.Config{
-		Mode:    packages.LoadSyntax,
-		Dir:     repoDir,
-		Fset:    fset,
-		Env:     loadEnv(goos, goarch),
-		Overlay: overlay,
+		Mode:      packages.LoadSyntax,
+		Dir:       repoDir,
+		Fset:      fset,
+		Env:       loadEnv(goos, goarch),
+		Overlay:   overlay,
 		ParseFile: nil,
 	}
 	pkgs, err := packages.Load(cfg, patterns...)
